@@ -170,7 +170,17 @@ func runC12(c *CaseCtx) {
 	}
 	defer run.Close()
 	g := &Gen{R: r, U: u, Cfg: cfg, KV: true, List: ds, Set: ds, ZSet: ds, TTL: true, MaxOps: 5}
+	// Merge variant (RAM modes): Merge runs in the same process after failed transactions; records of a transaction
+	// that failed must stay dead through it. Without lists and positional sorted-set removals (what Merge does to
+	// those is the recorded finding of C15/C16).
+	mergeVariant := cfg.Mode != 2 && c.Case%4 == 3
+	if mergeVariant {
+		g.List, g.NoZPop = false, true
+		class = "faults-merge"
+		run.Class = class
+	}
 	nsteps := 12 + r.Intn(tier(c.Tier, 14, 30))
+	mergeSoon := false // an I/O fault has just left records of a failed commit in the log
 	faultKinds := map[string]bool{}
 	noEffect := func(label string) bool {
 		if !run.CheckObs(label) {
@@ -185,6 +195,21 @@ func runC12(c *CaseCtx) {
 		return true
 	}
 	for i := 0; i < nsteps && !run.Dead && !c.Violated(); i++ {
+		if mergeVariant && i > 0 && (r.Intn(5) == 0 || mergeSoon && r.Intn(2) == 0) && !run.WriteDead && run.Files() >= 2 {
+			mergeSoon = false
+			c.Log("merge (%d files)", run.Files())
+			merr, p := mergeNoPanic(run)
+			if p != "" {
+				c.Violate("panic:Merge:"+p, class, "Merge panicked: "+p)
+				break
+			}
+			if merr == nil {
+				c.Stat("merges_succeeded", 1)
+			}
+			if !noEffect("after-merge") {
+				break
+			}
+		}
 		if run.WriteDead {
 			// a commit was refused after an earlier injected fault: it must have had no effect, and a reopen must cure it
 			if !run.CheckObs("after-refused-commit") || !run.Reopen() || !run.CheckObs("after-refused-commit+reopen") {
@@ -232,8 +257,22 @@ func runC12(c *CaseCtx) {
 			faultKinds["oversize"] = true
 			noEffect("after-oversize")
 		case x < 75: // injected I/O error at the j-th file operation of the commit, j = 1, 2, ... until the commit gets through
-			t := g.WriteTx(true)
+			t0 := g.WriteTx(true)
+			mergeSoon = true
 			for j := 1; j <= 14 && !run.Dead && !c.Violated(); j++ {
+				// every attempt writes its own values: a record left behind by a failed attempt is then
+				// distinguishable from what a later, successful attempt commits
+				t := TxSpec{Mode: t0.Mode, Ops: append([]Op{}, t0.Ops...)}
+				for k := range t.Ops {
+					switch t.Ops[k].K {
+					case "Put", "PutTS", "ZAdd":
+						v := append(append([]byte{}, t.Ops[k].Val...), []byte(fmt.Sprintf("#%d", j))...)
+						if max := g.maxPayload(t.Ops[k].B, len(t.Ops[k].Key)+8); len(v) > max {
+							v = v[len(v)-max:]
+						}
+						t.Ops[k].Val = v
+					}
+				}
 				inj.armed, inj.n, inj.count, inj.fired, inj.partial = true, j, 0, nil, r.Intn(2) == 0
 				before := run.M
 				beforeObs := obsModel(before, u)
